@@ -69,6 +69,8 @@ type PairConfig struct {
 	ServerScheme   string              // other documented spelling of the server's address scheme (e.g. "http+tls", "wss" for an https carrier)
 	Domain         string              // DNS tunnel domain
 	ExtraUpstreams []upstream.Upstream // tried before the pair's own upstream (C16)
+	// ClientScheme: other documented spelling of the upstream's address scheme ("ws" for an http carrier, "wss" for https)
+	ClientScheme string
 	// SpareUpstream: the client's fail-over list names the server twice (an endpoint behind the first that is just
 	// as reachable and, as long as the first works, never needed)
 	SpareUpstream bool
@@ -177,7 +179,11 @@ func buildEndpoints(cfg *PairConfig, p *Pair) (server.Server, upstream.Upstream,
 			p.Relay = NewRelay(HostPort(port))
 			cport = p.Relay.Port
 		}
-		up := &upstream.Http{Address: addr.MustParseAddress(fmt.Sprintf("%s://%s:%d%s", cfg.Carrier, host, cport, path))}
+		cscheme := cfg.Carrier
+		if cfg.ClientScheme != "" {
+			cscheme = cfg.ClientScheme
+		}
+		up := &upstream.Http{Address: addr.MustParseAddress(fmt.Sprintf("%s://%s:%d%s", cscheme, host, cport, path))}
 		return srv, up, nil
 	case CarStdio, CarStdioTLS:
 		c2sR, c2sW := osPipe()
@@ -332,7 +338,11 @@ func (p *Pair) UpstreamFor() upstream.Upstream {
 		if path == "" {
 			path = "/ws/all"
 		}
-		return &upstream.Http{Address: addr.MustParseAddress(fmt.Sprintf("%s://%s:%d%s", cfg.Carrier, host, port, path))}
+		scheme := cfg.Carrier
+		if cfg.ClientScheme != "" {
+			scheme = cfg.ClientScheme
+		}
+		return &upstream.Http{Address: addr.MustParseAddress(fmt.Sprintf("%s://%s:%d%s", scheme, host, port, path))}
 	case CarUDP:
 		curl := fmt.Sprintf("udp://%s:%d", host, port)
 		if cfg.ClientSecret != "" {
